@@ -24,7 +24,7 @@
    termination of the Rust loops, not part of the semantics. *)
 From Coq Require Import List NArith ZArith Bool Lia Sorted.
 From Abasic Require Import Model.Bytes Model.Num Model.Token Model.Data Model.Lexer Gen.Tables
-     Model.State Model.Eval Model.Interp Ref.RefSem Proofs.ExprSem Proofs.RefProofs Proofs.StmtSim.
+     Model.State Model.Eval Model.Interp Ref.RefSem Proofs.ExprSem Proofs.DataSim Proofs.RefProofs Proofs.StmtSim.
 Import ListNotations.
 Local Open Scope nat_scope.
 
@@ -158,6 +158,8 @@ Definition rerr_of2 (e : ierror) : rerr :=
   | EStackOverflow => RStackOverflow
   | EReturnWithoutGosub => RReturnWithoutGosub
   | ENextWithoutFor => RNextWithoutFor
+  | EOutOfData => ROutOfData
+  | EDataTypeMismatch => RDataTypeMismatch
   | other => rerr_of other
   end.
 
@@ -196,6 +198,19 @@ Proof.
   - subst x. exact (HT v (VNum cur) E).
   - unfold default_value in H. cbn [type_matches]. destruct (ends_with_dollar v); [discriminate | reflexivity].
 Qed.
+
+(* the DATA cursor: the reference's position in the flat DATA list is the
+   model iterator's flat position; no iterator yet = position 0 *)
+Definition data_rel (st : rstate) (s : interp) : Prop :=
+  match data_it s with
+  | None => r_dpos st = 0
+  | Some d => data_chunks (st_keys s) (st_toks s) = Ok (di_chunks d) /\ wf_it d /\ dpos d = r_dpos st
+  end.
+
+Lemma data_rel_ext st st' s s' :
+  r_dpos st' = r_dpos st -> data_it s' = data_it s -> st_keys s' = st_keys s -> st_toks s' = st_toks s ->
+  data_rel st s -> data_rel st' s'.
+Proof. unfold data_rel. intros -> -> -> ->. auto. Qed.
 
 (* open loops: what FOR keeps (the loops outside an earlier loop on the same
    variable), on both sides, and NEXT's search, on both sides *)
@@ -277,12 +292,17 @@ Section Step.
   Variables (li : nat) (after : rpc) (st : rstate).
   Hypothesis Hrel : same_store st s.
 
+  (* a statement that leaves the DATA cursor alone *)
+  Ltac data_same :=
+    apply data_rel_ext; [try (destruct st; reflexivity); reflexivity | reflexivity | reflexivity | reflexivity].
+
   Definition step_outcome (out : outcome) (i : nat) (ts : list token) (run : res unit * interp) (o : list output) : Prop :=
     match out with
     | Next pc st' =>
         exists s', run = (Ok tt, s') /\ keeps s' /\ same_store st' s'
           /\ r_frames st' = r_frames st
           /\ (typed s -> typed s')
+          /\ (data_rel st s -> data_rel st' s')
           /\ ((r_calls st' = r_calls st /\ stack s' = stack s)
               \/ (exists pc0 l0, r_calls st' = pc0 :: r_calls st /\ stack s' = stack s ++ [mkframe l0 []] /\ L pc0 l0)
               \/ (exists fr rest cr, stack s = rest ++ [fr] /\ stack s' = rest
@@ -307,9 +327,17 @@ Section Step.
     | Done st' =>
         st' = st /\ exists s', run = (Ok tt, s') /\ keeps s' /\ loc s' = imm0 /\ immediate s = [] /\ outputs s' = o
     | Fail er line st' =>
-        line = line_no p li /\ r_out st' = r_out st /\
-        exists ie s', run = (Err ie None, s') /\ rerr_of2 ie = er /\ keeps s'
-          /\ loc_line (loc s') = loc_line (loc s) /\ outputs s' = o /\ ie <> EDataTypeMismatch
+        match er with
+        | RDataTypeMismatch =>
+            (* reported on the line of the DATA statement the item came from *)
+            r_out st' = r_out st /\
+            exists s' l, run = (Err EDataTypeMismatch None, s') /\ keeps s' /\ outputs s' = o
+              /\ get_data_location s' = Some l /\ loc_line l = Some line
+        | _ =>
+            line = line_no p li /\ r_out st' = r_out st /\
+            exists ie s', run = (Err ie None, s') /\ rerr_of2 ie = er /\ keeps s'
+              /\ loc_line (loc s') = loc_line (loc s) /\ outputs s' = o /\ ie <> EDataTypeMismatch
+        end
     | NoFuel => False
     end.
 
@@ -344,7 +372,7 @@ Section Step.
     destruct (den s e') as [x|er l|pp| |]; cbn [plain] in Hp; try contradiction.
     - destruct (type_matches v x) eqn:Etm.
       + eexists. split; [reflexivity|]. split; [apply (keeps_at (i + 2 + length te) r' o)|].
-        split; [apply (same_store_assign st s _ v x Hrel); reflexivity|]. split; [try (destruct st; reflexivity); reflexivity|]. split; [intros HT; apply (typed_set s _ v x HT Etm); reflexivity|]. split; [left; split; [try (destruct st; reflexivity); reflexivity | reflexivity]|]. split; [left; split; [try (destruct st; reflexivity); reflexivity | reflexivity]|].
+        split; [apply (same_store_assign st s _ v x Hrel); reflexivity|]. split; [try (destruct st; reflexivity); reflexivity|]. split; [intros HT; apply (typed_set s _ v x HT Etm); reflexivity|]. split; [data_same|]. split; [left; split; [try (destruct st; reflexivity); reflexivity | reflexivity]|]. split; [left; split; [try (destruct st; reflexivity); reflexivity | reflexivity]|].
         split; [exists []; split; [destruct st; cbn; rewrite app_nil_r; reflexivity | cbn; rewrite app_nil_r; reflexivity]|].
         left. split; [reflexivity|]. cbn [length]. cbn. f_equal. lia.
       + split; [reflexivity|]. split; [reflexivity|]. eexists _, _. split; [reflexivity|].
@@ -368,7 +396,7 @@ Section Step.
     pose proof (pden_plain s items mitems Htr false []) as Hp.
     destruct (pden s mitems false []) as [[semi text]|er l|pp| |]; try contradiction.
     - eexists. split; [reflexivity|]. split; [apply keeps_at|].
-      split; [apply same_store_at; destruct Hrel as [A B]; split; [exact A | exact B]|]. split; [try (destruct st; reflexivity); reflexivity|]. split; [intros HT; exact HT|]. split; [left; split; [try (destruct st; reflexivity); reflexivity | reflexivity]|]. split; [left; split; [try (destruct st; reflexivity); reflexivity | reflexivity]|].
+      split; [apply same_store_at; destruct Hrel as [A B]; split; [exact A | exact B]|]. split; [try (destruct st; reflexivity); reflexivity|]. split; [intros HT; exact HT|]. split; [data_same|]. split; [left; split; [try (destruct st; reflexivity); reflexivity | reflexivity]|]. split; [left; split; [try (destruct st; reflexivity); reflexivity | reflexivity]|].
       split; [eexists [_]; split; [reflexivity | reflexivity]|].
       left. split; [reflexivity|]. cbn [length]. cbn. f_equal. lia.
     - destruct er; try contradiction; destruct l; try contradiction;
@@ -397,7 +425,7 @@ Section Step.
     destruct (find_line p n 0) as [li'|] eqn:Ef.
     - destruct (find_line_nth _ _ _ _ Ef) as (stmts & Hnth). rewrite Nat.sub_0_r in Hnth.
       eexists. split; [reflexivity|]. split; [unfold keeps; repeat split; assumption|].
-      split; [destruct Hrel as [A B]; split; [exact A | exact B]|]. split; [reflexivity|]. split; [intros HT; exact HT|].
+      split; [destruct Hrel as [A B]; split; [exact A | exact B]|]. split; [reflexivity|]. split; [intros HT; exact HT|]. split; [data_same|].
       split; [left; split; reflexivity|]. split; [left; split; reflexivity|].
       split; [exists []; split; [rewrite app_nil_r; reflexivity | cbn; rewrite app_nil_r; reflexivity]|].
       right. left. exists n, li', stmts. repeat split; assumption.
@@ -425,7 +453,7 @@ Section Step.
     destruct (find_line p n 0) as [li'|] eqn:Ef.
     - destruct (find_line_nth _ _ _ _ Ef) as (stmts & Hnth). rewrite Nat.sub_0_r in Hnth.
       eexists. split; [reflexivity|]. split; [unfold keeps; repeat split; assumption|].
-      split; [destruct Hrel as [A B]; split; [exact A | exact B]|]. split; [try (destruct st; reflexivity); reflexivity|]. split; [intros HT; exact HT|]. split; [left; split; [try (destruct st; reflexivity); reflexivity | reflexivity]|]. split; [left; split; [try (destruct st; reflexivity); reflexivity | reflexivity]|].
+      split; [destruct Hrel as [A B]; split; [exact A | exact B]|]. split; [try (destruct st; reflexivity); reflexivity|]. split; [intros HT; exact HT|]. split; [data_same|]. split; [left; split; [try (destruct st; reflexivity); reflexivity | reflexivity]|]. split; [left; split; [try (destruct st; reflexivity); reflexivity | reflexivity]|].
       split; [exists []; split; [rewrite app_nil_r; reflexivity | cbn; rewrite app_nil_r; reflexivity]|].
       right. left. exists n, li', stmts. repeat split; assumption.
     - split; [reflexivity|]. split; [reflexivity|]. eexists _, _. split; [reflexivity|].
@@ -473,7 +501,7 @@ Section Step.
             rewrite rev_unit. reflexivity.
           - rewrite Hvr. exact (B name). }
         split; [destruct st; reflexivity|].
-        split; [intros HT; exact HT|].
+        split; [intros HT; exact HT|]. split; [data_same|].
         split.
         { right. left. exists after, (mkloc (loc_line (loc s)) (i + length [TGosub; TNumber x])).
           split; [destruct st; reflexivity|]. split; [|exact HLa].
@@ -521,7 +549,7 @@ Section Step.
           rewrite rev_involutive. reflexivity.
         - rewrite Hvr. exact (B name). }
       split; [destruct st; reflexivity|].
-      split; [intros HT; exact HT|].
+      split; [intros HT; exact HT|]. split; [data_same|].
       split.
       { right. right. exists fr, rs, cr. rewrite rev_involutive.
         repeat split; try reflexivity. }
@@ -568,7 +596,7 @@ Section Step.
         { apply (same_store_assign (set_loops' (rkeep v (r_loops st) ++ [mkrl v to step after]) st) s); try reflexivity.
           split; intros name; [rewrite Hfr; exact (A name) | rewrite Hvr; exact (B name)]. }
         split; [destruct st; reflexivity|].
-        split; [intros HT; apply (typed_set s _ v (VNum from) HT Etm); reflexivity|].
+        split; [intros HT; apply (typed_set s _ v (VNum from) HT Etm); reflexivity|]. split; [data_same|].
         split; [left; split; [destruct st; reflexivity | reflexivity]|].
         split.
         { right. left. exists v, to, step, after, (mkloc (loc_line (loc s)) (i + length ts)).
@@ -788,7 +816,7 @@ Section Step.
         { apply (same_store_assign (set_loops' (kept ++ [lp]) st) s); try reflexivity.
           split; intros name; [rewrite Hfr; exact (A name) | rewrite Hvr; exact (B name)]. }
         split; [destruct st; reflexivity|].
-        split; [intros _; apply (typed_set s _ v (VNum (f64_add cur (rl_step lp))) HT (Hnum _)); reflexivity|].
+        split; [intros _; apply (typed_set s _ v (VNum (f64_add cur (rl_step lp))) HT (Hnum _)); reflexivity|]. split; [data_same|].
         split; [left; split; [destruct st; reflexivity | reflexivity]|].
         split.
         { right. right. exists v, lp, kept, k, lm. split; [exact Ed|]. split; [exact Ef|]. split; [exact Hnth|].
@@ -804,7 +832,7 @@ Section Step.
         { apply (same_store_assign (set_loops' kept st) s); try reflexivity.
           split; intros name; [rewrite Hfr; exact (A name) | rewrite Hvr; exact (B name)]. }
         split; [destruct st; reflexivity|].
-        split; [intros _; apply (typed_set s _ v (VNum (f64_add cur (rl_step lp))) HT (Hnum _)); reflexivity|].
+        split; [intros _; apply (typed_set s _ v (VNum (f64_add cur (rl_step lp))) HT (Hnum _)); reflexivity|]. split; [data_same|].
         split; [left; split; [destruct st; reflexivity | reflexivity]|].
         split.
         { right. right. exists v, lp, kept, k, lm. split; [exact Ed|]. split; [exact Ef|]. split; [exact Hnth|].
@@ -828,7 +856,7 @@ Section Step.
     erewrite bind_ok by (apply (next_some s toks Htoks); exact H0). cbv iota beta. cbn [ret].
     eexists. split; [reflexivity|]. split; [apply keeps_at|].
     split; [apply same_store_at; destruct Hrel as [A B]; split; [exact A | exact B]|].
-    split; [reflexivity|]. split; [intros HT; exact HT|].
+    split; [reflexivity|]. split; [intros HT; exact HT|]. split; [data_same|].
     split; [left; split; reflexivity|]. split; [left; split; reflexivity|].
     split; [exists []; split; [rewrite app_nil_r; reflexivity | cbn; rewrite app_nil_r; reflexivity]|].
     left. split; [reflexivity|]. cbn. f_equal. lia.
@@ -928,7 +956,7 @@ Section Step.
         erewrite bind_ok by exact Hpk. cbv iota. cbn [ret].
         eexists. split; [reflexivity|].
         split; [unfold keeps; repeat split; assumption|].
-        split; [destruct Hrel as [A B]; split; [exact A | exact B]|]. split; [try (destruct st; reflexivity); reflexivity|]. split; [intros HT; exact HT|]. split; [left; split; [try (destruct st; reflexivity); reflexivity | reflexivity]|]. split; [left; split; [try (destruct st; reflexivity); reflexivity | reflexivity]|].
+        split; [destruct Hrel as [A B]; split; [exact A | exact B]|]. split; [try (destruct st; reflexivity); reflexivity|]. split; [intros HT; exact HT|]. split; [data_same|]. split; [left; split; [try (destruct st; reflexivity); reflexivity | reflexivity]|]. split; [left; split; [try (destruct st; reflexivity); reflexivity | reflexivity]|].
         split; [exists []; split; [rewrite app_nil_r; reflexivity | cbn; rewrite app_nil_r; reflexivity]|].
         right. left. exists n, li', stmts. repeat split; assumption.
       + split; [reflexivity|]. split; [reflexivity|]. eexists _, _. split; [reflexivity|].
@@ -951,7 +979,7 @@ Section Step.
         { unfold next_token. erewrite bind_ok by apply (peek_at s toks Htoks). rewrite Hnone. reflexivity. }
         erewrite bind_ok by (erewrite bind_ok by exact Hnt; reflexivity). cbv iota. cbn [ret].
         eexists. split; [reflexivity|]. split; [apply keeps_at|].
-        split; [apply same_store_at; destruct Hrel as [A B]; split; [exact A | exact B]|]. split; [try (destruct st; reflexivity); reflexivity|]. split; [intros HT; exact HT|]. split; [left; split; [try (destruct st; reflexivity); reflexivity | reflexivity]|]. split; [left; split; [try (destruct st; reflexivity); reflexivity | reflexivity]|].
+        split; [apply same_store_at; destruct Hrel as [A B]; split; [exact A | exact B]|]. split; [try (destruct st; reflexivity); reflexivity|]. split; [intros HT; exact HT|]. split; [data_same|]. split; [left; split; [try (destruct st; reflexivity); reflexivity | reflexivity]|]. split; [left; split; [try (destruct st; reflexivity); reflexivity | reflexivity]|].
         split; [exists []; split; [rewrite app_nil_r; reflexivity | cbn; rewrite app_nil_r; reflexivity]|].
         right. right. left. split; [reflexivity|]. destruct Hlen as [Hl|[_ Hl]]; cbn; f_equal; cbn [length] in *; lia.
       + (* a colon: the statements behind it are skipped too *)
@@ -969,7 +997,7 @@ Section Step.
         { unfold next_token. erewrite bind_ok by apply (peek_at s toks Htoks). rewrite Hnone. reflexivity. }
         erewrite bind_ok by (erewrite bind_ok by exact Hnt; reflexivity). cbv iota. cbn [ret].
         eexists. split; [reflexivity|]. split; [apply keeps_at|].
-        split; [apply same_store_at; destruct Hrel as [A B]; split; [exact A | exact B]|]. split; [try (destruct st; reflexivity); reflexivity|]. split; [intros HT; exact HT|]. split; [left; split; [try (destruct st; reflexivity); reflexivity | reflexivity]|]. split; [left; split; [try (destruct st; reflexivity); reflexivity | reflexivity]|].
+        split; [apply same_store_at; destruct Hrel as [A B]; split; [exact A | exact B]|]. split; [try (destruct st; reflexivity); reflexivity|]. split; [intros HT; exact HT|]. split; [data_same|]. split; [left; split; [try (destruct st; reflexivity); reflexivity | reflexivity]|]. split; [left; split; [try (destruct st; reflexivity); reflexivity | reflexivity]|].
         split; [exists []; split; [rewrite app_nil_r; reflexivity | cbn; rewrite app_nil_r; reflexivity]|].
         right. right. left. split; reflexivity.
   Qed.
@@ -1257,18 +1285,25 @@ Section StepIf.
     - rewrite Hct'. exact Hne.
   Qed.
 
+  Lemma fail_not_ok er line st' i ts s' o aft :
+    step_outcome p s toks L li aft st (Fail er line st') i ts (Ok tt, s') o -> False.
+  Proof.
+    unfold step_outcome. destruct er; intros H;
+      first [ destruct H as (_ & _ & ie & s2 & E & _); discriminate | destruct H as (_ & s2 & l & E & _); discriminate ].
+  Qed.
+
   Lemma outcome_bump out i ts s' o :
     step_outcome p s toks L li after st out i ts (Ok tt, s') o ->
     step_outcome p s toks L li after st out i ts (Ok tt, bump s') o.
   Proof.
-    unfold step_outcome. destruct out as [pc st'|st'|er line st'|]; [| | |exact (fun H => H)].
-    - intros (s2 & E & K & SS & FR & TY & CS & LS & OUT & LOC). inversion E; subst s2.
+    destruct out as [pc st'|st'|er line st'|]; [| |intros H; exfalso; exact (fail_not_ok _ _ _ _ _ _ _ _ H)|exact (fun H => H)];
+      unfold step_outcome.
+    - intros (s2 & E & K & SS & FR & TY & DR & CS & LS & OUT & LOC). inversion E; subst s2.
       exists (bump s'). split; [reflexivity|]. split; [exact K|]. split; [exact SS|]. split; [exact FR|].
-      split; [exact TY|]. split; [exact CS|]. split; [exact LS|]. split; [exact OUT | exact LOC].
+      split; [exact TY|]. split; [exact DR|]. split; [exact CS|]. split; [exact LS|]. split; [exact OUT | exact LOC].
     - intros (E0 & s2 & E & K & LC & IM & O). inversion E; subst s2.
       split; [exact E0|]. exists (bump s'). split; [reflexivity|]. split; [exact K|]. split; [exact LC|].
       split; [exact IM | exact O].
-    - intros (_ & _ & ie & s2 & E & _). discriminate.
   Qed.
 
   (* the ELSE probe behind a THEN clause that has run *)
@@ -1279,8 +1314,8 @@ Section StepIf.
   Proof.
     intros Hsk Hrest H. unfold bind. destruct (m x) as [[[]|e l|pp| |] s'] eqn:Em; try exact H.
     assert (Hprobe : else_probe s' = (Ok tt, bump s')).
-    { unfold step_outcome in H. destruct out as [pc st'|st'|er line st'|].
-      - destruct H as (s2 & E & K & _ & _ & _ & _ & _ & _ & LOC). inversion E; subst s2.
+    { destruct out as [pc st'|st'|er line st'|]; [| |exfalso; exact (fail_not_ok _ _ _ _ _ _ _ _ H)|]; unfold step_outcome in H.
+      - destruct H as (s2 & E & K & _ & _ & _ & _ & _ & _ & _ & LOC). inversion E; subst s2.
         destruct LOC as [[_ Hloc]|[(n & li' & stmts & _ & Hp & Hloc)|[[_ Hloc]|[(fr & rs & cr & Hst & _ & Hloc)
                         |(v & lp & kept & k & lm & _ & _ & Hn & _ & Hloc)]]]].
         + apply (probe_same_line s' K); [rewrite Hloc; reflexivity|]. rewrite Hloc. cbn [loc_idx].
@@ -1301,7 +1336,6 @@ Section StepIf.
         apply probe_no_else.
         + unfold line_exists, line_ok. rewrite Hloc. exact I.
         + unfold cur_toks. rewrite Hloc. cbn [loc_line imm0 loc_idx]. rewrite K6, Himm. discriminate.
-      - destruct H as (_ & _ & ie & s2 & E & _). discriminate.
       - contradiction. }
     rewrite Hprobe. apply outcome_bump. exact H.
   Qed.
@@ -1379,7 +1413,7 @@ Section StepIf.
       rewrite Hscan. unfold step_outcome.
       eexists. split; [reflexivity|]. split; [apply keeps_at; assumption|].
       split; [apply same_store_at; destruct Hrel as [A B]; split; [exact A | exact B]|].
-      split; [reflexivity|]. split; [intros HT; exact HT|].
+      split; [reflexivity|]. split; [intros HT; exact HT|]. split; [intros HD; exact HD|].
       split; [left; split; reflexivity|]. split; [left; split; reflexivity|].
       split; [exists []; split; [rewrite app_nil_r; reflexivity | cbn; rewrite app_nil_r; reflexivity]|].
       right. right. left. split; reflexivity.
@@ -1452,13 +1486,13 @@ Section StepIf.
     2,3,4,5: (unfold step_outcome in *; destruct out as [pc st'|st'|er line st'|];
               [destruct H as (s2 & E & _); discriminate | destruct H as (_ & s2 & E & _); discriminate
               | exact H | exact H]).
-    unfold step_outcome in H. destruct out as [pc st'|st'|er line st'|].
-    - destruct H as (s2 & E & K & SS & FR & TY & CS & LS & OUT & LOC). inversion E; subst s2.
+    destruct out as [pc st'|st'|er line st'|]; [| |exfalso; exact (fail_not_ok _ _ _ _ _ _ _ _ H)|]; unfold step_outcome in H.
+    - destruct H as (s2 & E & K & SS & FR & TY & DR & CS & LS & OUT & LOC). inversion E; subst s2.
       destruct LOC as [[Hpc Hloc]|LOC'].
       + (* the arm ran to its end: the cursor is on the ELSE *)
         rewrite (probe_else s' K); [|rewrite Hloc; reflexivity | rewrite Hloc; exact Hc].
         unfold step_outcome. eexists. split; [reflexivity|].
-        split; [exact K|]. split; [exact SS|]. split; [exact FR|]. split; [exact TY|].
+        split; [exact K|]. split; [exact SS|]. split; [exact FR|]. split; [exact TY|]. split; [exact DR|].
         split; [exact CS|]. split; [exact LS|]. split; [exact OUT|].
         right. right. left. split; [exact Hpc | reflexivity].
       + (* it left the line, or skipped its rest: no ELSE where it is now *)
@@ -1476,7 +1510,7 @@ Section StepIf.
           - destruct (Hland_loops lm) as (n & tsn & A & B & C); [eapply nth_error_In; exact Hn|].
             apply (probe_at s' n tsn K); try rewrite Hloc; assumption. }
         rewrite Hprobe. unfold step_outcome. exists (bump s'). split; [reflexivity|].
-        split; [exact K|]. split; [exact SS|]. split; [exact FR|]. split; [exact TY|].
+        split; [exact K|]. split; [exact SS|]. split; [exact FR|]. split; [exact TY|]. split; [exact DR|].
         split; [exact CS|]. split; [exact LS|]. split; [exact OUT|]. right. exact LOC'.
     - destruct H as (E0 & s2 & E & K & Hloc & Himm & O). inversion E; subst s2.
       assert (Hprobe : else_probe s' = (Ok tt, bump s')).
@@ -1485,7 +1519,6 @@ Section StepIf.
         - unfold cur_toks. rewrite Hloc. cbn [loc_line imm0 loc_idx]. rewrite K6, Himm. discriminate. }
       rewrite Hprobe. unfold step_outcome. split; [exact E0|]. exists (bump s'). split; [reflexivity|].
       split; [exact K|]. split; [exact Hloc|]. split; [exact Himm | exact O].
-    - destruct H as (_ & _ & ie & s2 & E & _). discriminate.
     - contradiction.
   Qed.
 
@@ -1692,7 +1725,7 @@ Section Program.
   Inductive Sim : rpc -> rstate -> interp -> Prop :=
   | Sim_at li si st s colon :
       Inv s -> state s = Running -> same_store st s -> outputs s = o0 ++ map OPrint (r_out st) ->
-      calls_rel st s -> loops_rel st s -> typed s -> at_stmt li si s colon -> Sim (li, si) st s
+      calls_rel st s -> loops_rel st s -> typed s -> data_rel st s -> at_stmt li si s colon -> Sim (li, si) st s
   | Sim_eol li st s n stmts : nth_error p li = Some (n, stmts) -> Sim (S li, 0) st s -> Sim (li, length stmts) st s
   | Sim_fin li si st s : length p <= li -> Fin st s -> Sim (li, si) st s.
 
@@ -1713,12 +1746,12 @@ Section Program.
   (* the end of a line, inside the call: on to the next line, or the program is over *)
   Lemma eol_after st s li n stmts toks :
     Inv s -> state s = Running -> same_store st s -> outputs s = o0 ++ map OPrint (r_out st) -> calls_rel st s ->
-    loops_rel st s -> typed s ->
+    loops_rel st s -> typed s -> data_rel st s ->
     nth_error p li = Some (n, stmts) -> toks_get n (st_toks s) = Some toks -> loc_line (loc s) = Some n ->
     nth_error toks (loc_idx (loc s)) = None ->
     exists s2, after_statement s = (Ok tt, s2) /\ Sim (S li, 0) st s2.
   Proof.
-    intros HI Hrun Hrel Hout Hcr Hlr Hty Hp Ht Hl Hnone.
+    intros HI Hrun Hrel Hout Hcr Hlr Hty Hdr Hp Ht Hl Hnone.
     pose proof (line_exists_line s n toks Hl Ht) as Hle.
     assert (Hcn : nth_error (cur_toks s) (loc_idx (loc s)) = None) by (rewrite (cur_toks_line s n toks Hl Ht); exact Hnone).
     assert (Hk : keys_after n (st_keys s) = nth_error (map fst p) (S li)).
@@ -1736,6 +1769,7 @@ Section Program.
       + apply (calls_ext st st s); try reflexivity; exact Hcr.
       + apply (loops_ext st st s); try reflexivity; exact Hlr.
       + apply (typed_ext s); [reflexivity | exact Hty].
+      + apply (data_rel_ext st st s); try reflexivity; exact Hdr.
       + exists n', stmts', toks', toks'. repeat split; try assumption; reflexivity.
     - rewrite nth_error_map, Ep' in Hk. cbn in Hk.
       eexists. split; [apply (after_last s n Hle Hcn Hl Hk)|].
@@ -1746,10 +1780,10 @@ Section Program.
   (* the cursor has been put where a RETURN or a NEXT lands: the rest of the call *)
   Lemma land st s pc :
     Inv s -> state s = Running -> same_store st s -> outputs s = o0 ++ map OPrint (r_out st) -> calls_rel st s ->
-    loops_rel st s -> typed s -> pcloc (st_toks s) pc (loc s) ->
+    loops_rel st s -> typed s -> data_rel st s -> pcloc (st_toks s) pc (loc s) ->
     exists s2, after_statement s = (Ok tt, s2) /\ Sim pc st s2.
   Proof.
-    intros HI Hrun Hrel Hout Hcr Hlr Hty C. destruct pc as [li2 si2].
+    intros HI Hrun Hrel Hout Hcr Hlr Hty Hdr C. destruct pc as [li2 si2].
     destruct C as (n2 & stmts2 & toks2 & P1 & P2 & P3 & PC). cbn [fst snd] in P1, PC.
     destruct PC as [(tl2 & Q1 & Q2)|(Q1 & Q2)].
     - destruct (skipn_cons_nth _ _ _ _ Q1) as [Hc _].
@@ -1761,10 +1795,11 @@ Section Program.
         | destruct Hrel as [A B]; split; [exact A | exact B] | exact Hout
         | apply (calls_ext st st s); try reflexivity; exact Hcr
         | apply (loops_ext st st s); try reflexivity; exact Hlr
-        | apply (typed_ext s); [reflexivity | exact Hty] |].
+        | apply (typed_ext s); [reflexivity | exact Hty]
+        | apply (data_rel_ext st st s); try reflexivity; exact Hdr |].
       exists n2, stmts2, toks2, tl2.
       split; [exact P1|]. split; [exact P2|]. split; [exact P3|]. split; [exact Q1 | exact Q2].
-    - destruct (eol_after st s li2 n2 stmts2 toks2 HI Hrun Hrel Hout Hcr Hlr Hty P1 P2 P3) as (s2 & Ha & HS2).
+    - destruct (eol_after st s li2 n2 stmts2 toks2 HI Hrun Hrel Hout Hcr Hlr Hty Hdr P1 P2 P3) as (s2 & Ha & HS2).
       { apply skipn_nil_nth. exact Q1. }
       exists s2. split; [exact Ha|]. rewrite Q2. apply (Sim_eol li2 st s2 n2 stmts2 P1 HS2).
   Qed.
@@ -1918,9 +1953,9 @@ Section Program.
   (* the model's cursor on the first token of statement [si] of line [li] *)
   Lemma at_step li si st s :
     Inv s -> state s = Running -> same_store st s -> outputs s = o0 ++ map OPrint (r_out st) -> calls_rel st s ->
-    loops_rel st s -> typed s -> at_stmt li si s false -> after_step (rstep F p (li, si) st) s.
+    loops_rel st s -> typed s -> data_rel st s -> at_stmt li si s false -> after_step (rstep F p (li, si) st) s.
   Proof.
-    intros HI Hrun Hrel Hout Hcr Hlr Hty (n & stmts & toks & tl & Hp & Ht & Hl & Hsk & HL).
+    intros HI Hrun Hrel Hout Hcr Hlr Hty Hdr (n & stmts & toks & tl & Hp & Ht & Hl & Hsk & HL).
     (* the statement and what follows it on the line *)
     assert (Hsplit : exists stmt rs ts rest,
               skipn si stmts = stmt :: rs /\ tl = ts ++ rest /\ SRen F 0 rest stmt ts
@@ -1961,7 +1996,7 @@ Section Program.
     - (* the statement completes: the rest of the call *)
       apply (reach_turn _ s (Sim pc' st')); [|intros s' Hs'; apply reach_now, Hs'].
       exists f0. intros fuel Hf. specialize (Hstep fuel Hf (S (reads s)) (outputs s)).
-      destruct Hstep as (s' & Hev & Hk & Hrel' & Hfr' & Hty' & CS & LS & (outs & Ho1 & Ho2) & Hloc). specialize (Hty' Hty).
+      destruct Hstep as (s' & Hev & Hk & Hrel' & Hfr' & Hty' & Hdr' & CS & LS & (outs & Ho1 & Ho2) & Hloc). specialize (Hty' Hty). specialize (Hdr' Hdr).
       rewrite Hturn. rewrite Safety.bind_run, Hev.
       pose proof (Inv_keeps s s' HI Hk) as HI'.
       destruct Hk as (K1 & K2 & K3 & K4 & K5 & K6).
@@ -1997,7 +2032,7 @@ Section Program.
           assert (Hlen : S si = length stmts).
           { assert (Hz : length (skipn si stmts) = 1) by (rewrite Hst; reflexivity).
             rewrite skipn_length in Hz. lia. }
-          destruct (eol_after st' s' li n stmts toks HI' Hrun' Hrel' Hout' Hcr' Hlr' Hty' Hp Ht' Hl') as (s2 & Ha & HS2).
+          destruct (eol_after st' s' li n stmts toks HI' Hrun' Hrel' Hout' Hcr' Hlr' Hty' Hdr' Hp Ht' Hl') as (s2 & Ha & HS2).
           { rewrite Hidx. apply skipn_nil_nth. exact Hsk'. }
           exists s2. split; [rewrite Ha; reflexivity|]. rewrite Hlen. apply (Sim_eol li st' s2 n stmts Hp HS2).
         * (* a colon follows: the call ends on it *)
@@ -2011,7 +2046,8 @@ Section Program.
             | destruct Hrel' as [A B]; split; [exact A | exact B] | exact Hout'
             | apply (calls_ext st' st' s'); try reflexivity; exact Hcr'
             | apply (loops_ext st' st' s'); try reflexivity; exact Hlr'
-            | apply (typed_ext s'); [reflexivity | exact Hty'] |].
+            | apply (typed_ext s'); [reflexivity | exact Hty']
+            | apply (data_rel_ext st' st' s'); try reflexivity; exact Hdr' |].
           exists n, stmts, toks, tr'.
           split; [exact Hp|]. split; [exact Ht'|]. split; [exact Hl'|].
           split; [change (loc (bump s')) with (loc s'); rewrite Hidx; exact Hsk' | rewrite Hrs; exact HL'].
@@ -2028,26 +2064,27 @@ Section Program.
           | destruct Hrel' as [A B]; split; [exact A | exact B] | exact Hout'
           | apply (calls_ext st' st' s'); try reflexivity; exact Hcr'
           | apply (loops_ext st' st' s'); try reflexivity; exact Hlr'
-          | apply (typed_ext s'); [reflexivity | exact Hty'] |].
+          | apply (typed_ext s'); [reflexivity | exact Hty']
+          | apply (data_rel_ext st' st' s'); try reflexivity; exact Hdr' |].
         exists n', stmts', (t2 :: toks2), (t2 :: toks2).
         split; [exact Hp'|]. split; [exact Ht2|]. split; [exact Hl'|].
         split; [change (loc (bump s')) with (loc s'); rewrite Hloc; reflexivity | exact HL2].
       + (* IF not taken: the rest of the line is skipped *)
         assert (Hl' : loc_line (loc s') = Some n) by (rewrite Hloc; exact Hl).
-        destruct (eol_after st' s' li n stmts toks HI' Hrun' Hrel' Hout' Hcr' Hlr' Hty' Hp Ht' Hl') as (s2 & Ha & HS2).
+        destruct (eol_after st' s' li n stmts toks HI' Hrun' Hrel' Hout' Hcr' Hlr' Hty' Hdr' Hp Ht' Hl') as (s2 & Ha & HS2).
         { rewrite Hloc. cbn [loc_idx]. apply nth_error_None. apply le_n. }
         exists s2. split; [rewrite Ha; reflexivity | exact HS2].
       + (* RETURN: just past the GOSUB that called *)
         destruct (calls_cons st s pc' cr Hcr E2) as (fr2 & rs2 & A & _ & C & _).
         rewrite E1 in A. apply app_inj_tail in A. destruct A as [_ <-].
         rewrite <- K1, <- Hloc in C.
-        destruct (land st' s' pc' HI' Hrun' Hrel' Hout' Hcr' Hlr' Hty' C) as (s2 & Ha & HS2).
+        destruct (land st' s' pc' HI' Hrun' Hrel' Hout' Hcr' Hlr' Hty' Hdr' C) as (s2 & Ha & HS2).
         exists s2. split; [rewrite Ha; reflexivity | exact HS2].
       + (* NEXT, once more: just past the FOR *)
         pose proof (drop_find _ v _ _ Hlr (lrel_var _)) as D. rewrite E1, E2 in D.
         destruct D as (lm' & D1 & (_ & _ & _ & C) & _). rewrite E3 in D1. inversion D1; subst lm'.
         rewrite <- K1, <- Hloc in C.
-        destruct (land st' s' (rl_body lp) HI' Hrun' Hrel' Hout' Hcr' Hlr' Hty' C) as (s2 & Ha & HS2).
+        destruct (land st' s' (rl_body lp) HI' Hrun' Hrel' Hout' Hcr' Hlr' Hty' Hdr' C) as (s2 & Ha & HS2).
         exists s2. split; [rewrite Ha; reflexivity | exact HS2].
     - (* END *)
       apply (reach_turn _ s (Fin st')); [|intros s' Hs'; apply reach_now, Hs'].
@@ -2058,14 +2095,27 @@ Section Program.
       rewrite (after_imm s' Hloc ltac:(congruence)).
       eexists. split; [reflexivity|]. split; [reflexivity|].
       rewrite outputs_finished, Ho. exact Hout.
-    - (* the statement fails: so does the call, on this line *)
+    - (* the statement fails: so does the call, on this line (a DATA TYPE MISMATCH: on the DATA line) *)
       apply reach_now. exists f0. intros fuel Hf. specialize (Hstep fuel Hf (S (reads s)) (outputs s)).
-      destruct Hstep as (-> & Hro & ie & s' & Hev & Her & Hk & Hll & Ho & Hne).
+      assert (Hgen : (line = line_no p li /\ r_out st' = r_out st /\
+                exists ie s', evaluate_statement fuel 0 (at_idx s i (S (reads s)) (outputs s)) = (Err ie None, s')
+                  /\ rerr_of2 ie = er /\ keeps s s' /\ loc_line (loc s') = loc_line (loc s)
+                  /\ outputs s' = outputs s /\ ie <> EDataTypeMismatch) ->
+              exists ie l s', continue_evaluating fuel s = (Err ie (Some l), s') /\ rerr_of2 ie = er
+                /\ loc_line l = Some line /\ state s' = Idle /\ outputs s' = o0 ++ map OPrint (r_out st')).
+      { intros (-> & Hro & ie & s' & Hev & Her & Hk & Hll & Ho & Hne).
+        rewrite Hturn. rewrite Safety.bind_run, Hev. cbn [postprocess].
+        exists ie, (prev_location (loc s')), (set_state Idle s').
+        split; [f_equal; f_equal; unfold populate_error_location; destruct ie; try reflexivity; congruence|].
+        split; [exact Her|]. split.
+        { cbn. rewrite Hll, Hl. unfold line_no. rewrite Hp. reflexivity. }
+        split; [reflexivity|]. cbn. rewrite Ho, Hro. exact Hout. }
+      destruct er; try (apply Hgen; exact Hstep).
+      destruct Hstep as (Hro & s' & l & Hev & Hk & Ho & Hgl & Hll).
       rewrite Hturn. rewrite Safety.bind_run, Hev. cbn [postprocess].
-      exists ie, (prev_location (loc s')), (set_state Idle s').
-      split; [f_equal; f_equal; unfold populate_error_location; destruct ie; try reflexivity; congruence|].
-      split; [exact Her|]. split.
-      { cbn. rewrite Hll, Hl. unfold line_no. rewrite Hp. reflexivity. }
+      exists EDataTypeMismatch, l, (set_state Idle s').
+      split; [cbn [populate_error_location]; rewrite Hgl; reflexivity|].
+      split; [reflexivity|]. split; [exact Hll|].
       split; [reflexivity|]. cbn. rewrite Ho, Hro. exact Hout.
     - specialize (Hstep f0 (le_n _) (S (reads s)) (outputs s)). exact Hstep.
   Qed.
@@ -2073,12 +2123,12 @@ Section Program.
   (* the colon in front of a statement is a host call of its own *)
   Lemma colon_step li si st s :
     Inv s -> state s = Running -> same_store st s -> outputs s = o0 ++ map OPrint (r_out st) -> calls_rel st s ->
-    loops_rel st s -> typed s -> at_stmt li si s true ->
+    loops_rel st s -> typed s -> data_rel st s -> at_stmt li si s true ->
     exists f0, forall fuel, f0 <= fuel -> exists s', continue_evaluating fuel s = (Ok tt, s') /\
       Inv s' /\ state s' = Running /\ same_store st s' /\ outputs s' = o0 ++ map OPrint (r_out st) /\ calls_rel st s'
-      /\ loops_rel st s' /\ typed s' /\ at_stmt li si s' false.
+      /\ loops_rel st s' /\ typed s' /\ data_rel st s' /\ at_stmt li si s' false.
   Proof.
-    intros HI Hrun Hrel Hout Hcr Hlr Hty (n & stmts & toks & tl & Hp & Ht & Hl & Hsk & HL).
+    intros HI Hrun Hrel Hout Hcr Hlr Hty Hdr (n & stmts & toks & tl & Hp & Ht & Hl & Hsk & HL).
     set (i := loc_idx (loc s)) in *.
     pose proof (cur_tokens_line s n toks Hl Ht) as Htoks.
     pose proof (line_exists_line s n toks Hl Ht) as Hle.
@@ -2108,20 +2158,21 @@ Section Program.
     split; [apply (calls_ext st st s); try reflexivity; exact Hcr|].
     split; [apply (loops_ext st st s); try reflexivity; exact Hlr|].
     split; [apply (typed_ext s); [reflexivity | exact Hty]|].
+    split; [apply (data_rel_ext st st s); try reflexivity; exact Hdr|].
     exists n, stmts, toks, tl. split; [exact Hp|]. split; [exact Ht|]. split; [exact Hl|]. split; [exact Hsk' | exact HL].
   Qed.
 
   (* one reference step *)
   Theorem sim_step pc st s : Sim pc st s -> after_step (rstep F p pc st) s.
   Proof.
-    induction 1 as [li si st s colon HI Hrun Hrel Hout Hcr Hlr Hty Hat|li st s n stmts Hp HS IH|li si st s Hlen HF].
+    induction 1 as [li si st s colon HI Hrun Hrel Hout Hcr Hlr Hty Hdr Hat|li st s n stmts Hp HS IH|li si st s Hlen HF].
     - destruct colon; [|apply at_step; assumption].
-      destruct (colon_step li si st s HI Hrun Hrel Hout Hcr Hlr Hty Hat) as (f0 & Hc).
+      destruct (colon_step li si st s HI Hrun Hrel Hout Hcr Hlr Hty Hdr Hat) as (f0 & Hc).
       assert (Hgoal : forall s', (Inv s' /\ state s' = Running /\ same_store st s'
                                  /\ outputs s' = o0 ++ map OPrint (r_out st) /\ calls_rel st s'
-                                 /\ loops_rel st s' /\ typed s' /\ at_stmt li si s' false) ->
+                                 /\ loops_rel st s' /\ typed s' /\ data_rel st s' /\ at_stmt li si s' false) ->
                         after_step (rstep F p (li, si) st) s').
-      { intros s' (A & B & C & D & E & G & H & J). apply at_step; assumption. }
+      { intros s' (A & B & C & D & E & G & H & J & K). apply at_step; assumption. }
       destruct (rstep F p (li, si) st) as [pc' st'|st'|er line st'|]; unfold after_step in *.
       + eapply reach_turn; [exists f0; exact Hc | exact Hgoal].
       + eapply reach_turn; [exists f0; exact Hc | exact Hgoal].
